@@ -321,7 +321,9 @@ class World:
 
     def op_peer_reset(self, op):
         tr = self._tr(op)
-        if tr is None or tr.lost:
+        # after the peer's EOF a selector transport has stopped reading: a later error of the link is
+        # only ever noticed by a failing write (arm_fault), never spontaneously
+        if tr is None or tr.lost or tr.half_open:
             self.ev("skipped", what="peer_reset")
             return
         self.ev("peer_reset", c=tr.c, exc=op.get("exc") or "reset")
@@ -412,6 +414,29 @@ class World:
             return
         self.ev("feed", c=tr.c, b=data, tag="echo")
         tr.feed(bytes(data))
+
+    def op_answer_errinfo(self, op):
+        """A console that answers the error-information requests the client wrote since the last call
+        (0x1F / 0xFF10 / ac) with the reply frame the script prepared for that AC; nothing otherwise."""
+        start = getattr(self, "_err_from", 0)
+        data = []
+        for ev in self.trace[start:]:
+            if ev["e"] == "write":
+                data += ev["b"]
+        self._err_from = len(self.trace)
+        tr = self.net.transport("last")
+        asked = []
+        for i in range(len(data) - 5):
+            if data[i:i + 5] == [0x1F, 0x00, 0x03, 0xFF, 0x10] and str(data[i + 5]) in op["replies"]:
+                asked.append(data[i + 5])
+        for ac in asked:
+            if tr is None or not tr.alive_for_peer():
+                self.ev("skipped", what="answer_errinfo")
+                return
+            fr = op["replies"][str(ac)]
+            self.ev("feed", c=tr.c, b=list(fr), tag="error_info_reply")
+            tr.feed(bytes(fr))
+        self.ev("answered_errinfo", acs=asked)
 
     def op_mark(self, op):
         self.ev("mark", tag=op["tag"])
